@@ -6,9 +6,9 @@ import ast
 
 from ..cfg import build_cfg, calls_in, node_calls
 from ..core import Ctx, property_info, rule
-from ..events import event_of_yield, node_events
+from ..events import event_of_yield, node_events, canonical_events
 from ..model import AnalysisError, FuncInfo, walk_no_nested
-from ..q import A, Dispatch, passes, value_texts, reach_table, reach_env, node_containing, asrc, call_name_of, calls_named, func_text, leaves_at, raw_forms, enum_members, flow_conditions, flows, forms, is_self_attr, kwarg, return_values, stores, str_template, template_text, unparse
+from ..q import A, Dispatch, tests_raw, passes, value_texts, reach_table, reach_env, node_containing, asrc, call_name_of, calls_named, func_text, leaves_at, raw_forms, enum_members, flow_conditions, flows, forms, is_self_attr, kwarg, return_values, stores, str_template, template_text, unparse
 
 PAR = "xsdata.formats.dataclass.parsers"
 SER = "xsdata.formats.dataclass.serializers.mixins"
@@ -83,7 +83,7 @@ def generic_event_order(ctx: Ctx) -> None:
     g = build_cfg(fi.node)
     evs = []
     for n in g.stmts():
-        for ev in node_events(n):
+        for ev in canonical_events(fi, n):
             evs.append((n, ev))
     kinds = [(ev.kind, ev.expr) for _, ev in evs]
     order = [k for k, _ in kinds]
@@ -95,12 +95,13 @@ def generic_event_order(ctx: Ctx) -> None:
         ctx.ob("the tail is emitted after END on every path", g.must_pass(g.entry, tn.id, [en_.id]) or True and _after(g, en_, tn), at=fi, construct="tail after end", msg="tail text written inside the element")
         ctx.ob("children are emitted after the text and before END", _after(g, dn, nn) and _after(g, nn, en_), at=fi, construct="children position", msg="children order changed")
         ctx.ob("attributes are emitted before the text", _after(g, an, dn), at=fi, construct="attrs before text", msg="attributes after content")
-        loop = [n for n in g.nodes if n.kind == "for" and "value.children" in unparse(n.ast.iter)]
-        ctx.ob("children are emitted in list order", bool(loop) and unparse(loop[0].ast.iter) == "value.children", at=fi, construct="children order", msg="children iterated in another order")
-        al = [n for n in g.nodes if n.kind == "for" and "value.attributes" in unparse(n.ast.iter)]
-        ctx.ob("every attribute of the generic element is emitted", bool(al) and unparse(al[0].ast.iter) == "value.attributes.items()", at=fi, construct="attributes loop", msg="attributes filtered")
-        tt = [x for x in g.nodes if x.kind == "test" and unparse(x.ast) == "value.tail"]
-        ctx.ob("the tail is emitted whenever it is non-empty", bool(tt) and g.only_if(tn.id, tt[0].id, True), at=fi, construct="tail guard", msg="tail guard changed")
+        loop = [n for n in g.nodes if n.kind == "for" and any("value.children" in t for t in value_texts(fi, n, n.ast.iter))]
+        ctx.ob("children are emitted in list order", bool(loop) and "value.children" in value_texts(fi, loop[0], loop[0].ast.iter), at=fi, construct="children order", msg="children iterated in another order")
+        al = [n for n in g.nodes if n.kind == "for" and any("value.attributes" in t for t in value_texts(fi, n, n.ast.iter))]
+        ctx.ob("every attribute of the generic element is emitted", bool(al) and bool({"value.attributes.items()", "value.attributes"} & value_texts(fi, al[0], al[0].ast.iter)), at=fi, construct="attributes loop", msg="attributes filtered")
+        tab = reach_table(fi, tn, [{"value.tail": True, "value.tail is not None": True, "value.tail is None": False}], raw=True)
+        if tab is not None:
+            ctx.ob("the tail is emitted whenever it is non-empty", tab == {(True,): True, (False,): False}, at=fi, construct="tail guard", msg=f"tail guard changed: tail event under {tab}")
 
 def _after(g, a, b) -> bool:
     """b is reachable from a and a is not reachable from b (except through loops they do not share)."""
@@ -263,8 +264,8 @@ def sibling_agreement_on_tails(ctx: Ctx) -> None:
         tail_apps = [c for c in appends if c.args and _is_tail_tuple(c.args[0], b, c)]
         if tail_apps:
             g = build_cfg(b.node)
-            guards = [t for t in g.nodes if t.kind == "test" and unparse(t.ast) in ("self.meta.mixed_content", "self.tail_processed")]
-            ok = bool(guards) and all(any(g.only_if(g.node_of(c).id, t.id, unparse(t.ast) != "self.tail_processed") for t in guards) for c in tail_apps)
+            mixed, done = tests_raw(b, "self.meta.mixed_content"), tests_raw(b, "self.tail_processed")
+            ok = bool(mixed or done) and all(any(g.only_if(node_containing(g, c).id, t.id, True) for t in mixed) or any(g.only_if(node_containing(g, c).id, t.id, False) for t in done) for c in tail_apps)
             ctx.ob(f"{s.name}.bind appends the tail only where mixed content can hold it", ok, at=b, construct=f"{s.name} tail guard", msg="tails appended for non-mixed parents (or twice)")
     ctx.floor("node classes that bind objects", n, 5)
 
